@@ -35,7 +35,8 @@ def data():
         "lol": [[0, 5, "b"], [1, 4, "A"], [0, 3, "a"]],
         "words": ["b", "a", "B", "a"], "nums": [3, 1, 2], "empty": [], "d": {"b": 1, "A": 2, "a": 0},
         "text": "  hello big world  ", "csv": "a,b,a", "para": "one two\nthree  four five\n\nsix", "obj": {"k": [1, "<"], "j": None},
-        "u": 7.5, "ns": "12", "bad": "x1",
+        "u": 7.5, "ns": "12", "bad": "x1", "t19": "abcd efgh ijkl mnop", "z0": 0, "z1": 1, "z999": 999, "z1000": 1000, "z1024": 1024, "zbig": 1500000000,
+        "xa": {"class": "a<b", "id": None, "n": 0, "e": ""}, "xe": {}, "link": "go http://example.com/abcdefghij now",
     }
 
 
@@ -240,6 +241,46 @@ def r_dictsort(ref, value, case_sensitive=False, by="key", reverse=False):
     return sorted(value.items(), key=lambda kv: kv[pos] if case_sensitive else lowered(kv[pos]), reverse=reverse)
 
 
+def r_filesizeformat(ref, value, binary=False):
+    n = float(value)
+    base = 1024 if binary else 1000
+    prefixes = ["KiB", "MiB", "GiB", "TiB", "PiB", "EiB", "ZiB", "YiB"] if binary else ["kB", "MB", "GB", "TB", "PB", "EB", "ZB", "YB"]
+    if n == 1:
+        return "1 Byte"
+    if n < base:
+        return "%d Bytes" % n
+    for i, prefix in enumerate(prefixes):
+        unit = base ** (i + 2)
+        if n < unit:
+            return "%.1f %s" % (base * n / unit, prefix)
+    return "%.1f %s" % (base * n / unit, prefix)
+
+
+def r_xmlattr(ref, d, autospace=True):
+    import jinja2
+    import markupsafe
+    rv = " ".join('%s="%s"' % (markupsafe.escape(k), markupsafe.escape(v)) for k, v in d.items() if v is not None and not isinstance(v, jinja2.Undefined))
+    if autospace and rv:
+        rv = " " + rv
+    return rv
+
+
+def r_urlize(ref, value, trim_url_limit=None, nofollow=False, target=None, rel=None):
+    """for the one-link input 'go http://example.com/abcdefghij now'"""
+    rels = set((rel or "").split()) | {"noopener"}
+    if nofollow:
+        rels.add("nofollow")
+    rel_attr = ' rel="%s"' % " ".join(sorted(rels))
+    target_attr = ' target="%s"' % target if target else ""
+    out = []
+    for w in value.split(" "):
+        if w.startswith("http://"):
+            shown = w[:trim_url_limit] + "..." if trim_url_limit is not None and len(w) > trim_url_limit else w
+            w = '<a href="%s"%s%s>%s</a>' % (w, rel_attr, target_attr, shown)
+        out.append(w)
+    return " ".join(out)
+
+
 FALSY = [0, 0.0, "", False, [], (), {}]
 
 # name -> (reference, inputs, required positional argument lists, [(optional name, values)] in positional order)
@@ -254,19 +295,23 @@ SPECS = {
     "join": (r_join, ["words", "nums", "lol", "rows", "empty"], [[]], [("d", ["", ",", 0, False, None, "<"]), ("attribute", [None, 0, 2, "b", "zz"])]),
     "selectattr": (r_selectattr(True), ["rows", "recs", "lol"], [["a"], [0], ["b"], ["zz"], ["a", "eq", 0], ["a", "defined"], [0, "ge", 0], [2, "in", ""]], []),
     "rejectattr": (r_selectattr(False), ["rows", "recs", "lol"], [["a"], [0], ["b"], ["zz"], ["a", "eq", 0], ["a", "none"], [0, "lt", 1]], []),
-    "batch": (r_batch, ["nums", "words", "empty", "csv"], [[2], [3], [5]], [("fill_with", FALSY + [None, 9, "x"])]),
-    "slice": (r_slice, ["nums", "words", "empty", "csv"], [[2], [3], [5]], [("fill_with", FALSY + [None, 9, "x"])]),
+    "batch": (r_batch, ["nums", "words", "empty", "csv"], [[2], [3], [5], [0], [1]], [("fill_with", FALSY + [None, 9, "x"])]),
+    "slice": (r_slice, ["nums", "words", "empty", "csv"], [[2], [3], [5], [0], [1]], [("fill_with", FALSY + [None, 9, "x"])]),
     "default": (r_default, ["zzz", "empty", "nums", "u"], [[]], [("default_value", FALSY + [None, 9, "x"]), ("boolean", [False, True, 0, 1, "", None, []])]),
-    "replace": (r_replace, ["csv", "text"], [["a", "X"], ["", "-"], ["l", ""]], [("count", [None, 0, 1, 2, False, True])]),
-    "tojson": (r_tojson, ["obj", "nums", "d", "csv"], [[]], [("indent", [None, 0, 1, 2, False, True])]),
+    "replace": (r_replace, ["csv", "text"], [["a", "X"], ["", "-"], ["l", ""]], [("count", [None, 0, 1, 2, False, True, 0.0, ""])]),
+    "tojson": (r_tojson, ["obj", "nums", "d", "csv"], [[]], [("indent", [None, 0, 1, 2, False, True, "", "\t", 0.0])]),
     "trim": (r_trim, ["text", "csv"], [[]], [("chars", [None, "", " ", "a", " hd", "ab,"])]),
-    "truncate": (r_truncate, ["text", "para", "csv"], [[]], [("length", [255, 3, 8, 12]), ("killwords", [False, True, 0, 1, "", None]), ("end", ["...", "", "~", ".."]), ("leeway", [None, 0, 1, 5, False])]),
-    "wordwrap": (r_wordwrap, ["para", "text"], [[]], [("width", [79, 5, 9, 1]), ("break_long_words", [True, False, 0, 1, "", None]), ("wrapstring", [None, "", "|", "<br>"]), ("break_on_hyphens", [True, False, 0, ""])]),
-    "int": (r_int, ["ns", "bad", "u", "empty", "zzz"], [[]], [("default", [0, 0.0, "", False, None, 7, []]), ("base", [10, 8, 16, 2])]),
+    # the length is given positionally so that every optional argument meets strings shorter than, within the leeway of, and longer than it
+    "truncate": (r_truncate, ["text", "para", "csv", "t19"], [[255], [3], [8], [14], [16], [17], [19], [24]], [("killwords", [False, True, 0, 1, "", None]), ("end", ["...", "", "~", ".."]), ("leeway", [None, 0, 0.0, 1, 5, False, True, ""])]),
+    "wordwrap": (r_wordwrap, ["para", "text"], [[]], [("width", [79, 5, 9, 1, 0, False, 0.0]), ("break_long_words", [True, False, 0, 1, "", None]), ("wrapstring", [None, "", "|", "<br>"]), ("break_on_hyphens", [True, False, 0, ""])]),
+    "int": (r_int, ["ns", "bad", "u", "empty", "zzz"], [[]], [("default", [0, 0.0, "", False, None, 7, []]), ("base", [10, 8, 16, 2, 0, False, 0.0, ""])]),
     "float": (r_float, ["ns", "bad", "u", "empty", "zzz"], [[]], [("default", [0.0, 0, "", False, None, 7.5, []])]),
-    "round": (r_round, ["u"], [[]], [("precision", [0, 1, 2, False, True]), ("method", ["common", "ceil", "floor"])]),
-    "indent": (r_indent, ["para", "csv"], [[]], [("width", [4, 0, 2, "", ">>", False]), ("first", [False, True, 0, 1, "", None]), ("blank", [False, True, 0, 1, "", None])]),
-    "center": (r_center, ["csv"], [[]], [("width", [80, 0, 9, False])]),
+    "round": (r_round, ["u"], [[]], [("precision", [0, 1, 2, False, True, 0.0, ""]), ("method", ["common", "ceil", "floor"])]),
+    "indent": (r_indent, ["para", "csv"], [[]], [("width", [4, 0, 2, "", ">>", False, 0.0]), ("first", [False, True, 0, 1, "", None]), ("blank", [False, True, 0, 1, "", None])]),
+    "center": (r_center, ["csv"], [[]], [("width", [80, 0, 9, False, 0.0, ""])]),
+    "filesizeformat": (r_filesizeformat, ["z0", "z1", "z999", "z1000", "z1024", "zbig", "u"], [[]], [("binary", [False, True, 0, 1, "", None, 0.0, []])]),
+    "xmlattr": (r_xmlattr, ["xa", "d", "xe"], [[]], [("autospace", [True, False, 0, 1, "", None, 0.0, []])]),
+    "urlize": (r_urlize, ["link"], [[]], [("trim_url_limit", [None, 0, 1, 10, 100, False]), ("nofollow", [False, True, 0, 1, "", None]), ("target", [None, "", "_blank", 0]), ("rel", [None, "", "me", "noopener x"])]),
     "dictsort": (r_dictsort, ["d"], [[]], [("case_sensitive", [False, True, 0, 1, "", None]), ("by", ["key", "value"]), ("reverse", [False, True, 0, 1, "", None, []])]),
 }
 
